@@ -22,6 +22,7 @@ func exhLens(tier string) (l14, l2, l3 int) {
 	return 4, 4, 4
 }
 
+// nRandom is the number of random sources (a multiple of rndBatch).
 func nRandom(tier string) int {
 	if tier == "thorough" {
 		return 1500000
@@ -36,7 +37,7 @@ func nBatches(n int) int { return (n + exhBatch - 1) / exhBatch }
 
 func nCases(tier string) int {
 	a, b, c := exhLens(tier)
-	return nBatches(gen.CountStrings(14, a)) + nBatches(gen.CountStrings(14, b)) + nBatches(gen.CountStrings(14, c)) + nRandom(tier)
+	return nBatches(gen.CountStrings(14, a)) + nBatches(gen.CountStrings(14, b)) + nBatches(gen.CountStrings(14, c)) + nRandom(tier)/rndBatch
 }
 
 func exhCase(alpha []string, class string, bi, maxLen int) c06In {
@@ -51,7 +52,8 @@ func exhCase(alpha []string, class string, bi, maxLen int) c06In {
 	return in
 }
 
-func single(src, class string) c06In { return c06In{Srcs: []string{src}, Class: class} }
+// random sources are grouped too (rndBatch per case, each with its own class)
+const rndBatch = 8
 
 func genCase(r *rand.Rand, i int, tier string) any {
 	a, b, c := exhLens(tier)
@@ -68,26 +70,36 @@ func genCase(r *rand.Rand, i int, tier string) any {
 	if n := nBatches(gen.CountStrings(14, c)); i < n {
 		return exhCase(alphabet3, "x3", i, c)
 	}
+	in := c06In{Class: "random"}
+	for k := 0; k < rndBatch; k++ {
+		src, class := randomSource(r)
+		in.Srcs = append(in.Srcs, src)
+		in.Cls = append(in.Cls, class)
+	}
+	return in
+}
+
+func randomSource(r *rand.Rand) (src, class string) {
 	switch k := r.Intn(22); {
 	case k >= 20:
-		return single(anb(r), "anb")
+		return anb(r), "anb"
 	case k < 4:
-		return single(gen.Soup(r, 8), "soup")
+		return gen.Soup(r, 8), "soup"
 	case k < 8:
-		return single(damage(r, sheet(r, 2)), "sheet")
+		return damage(r, sheet(r, 2)), "sheet"
 	case k < 11:
-		return single(damage(r, declBlock(r, 2)), "decls")
+		return damage(r, declBlock(r, 2)), "decls"
 	case k < 14:
 		if s, ok := corpusCase(r); ok {
-			return single(s, "corpus")
+			return s, "corpus"
 		}
-		return single(gen.Soup(r, 8), "soup")
+		return gen.Soup(r, 8), "soup"
 	case k < 17:
-		return single(micro(r), "micro")
+		return micro(r), "micro"
 	case k < 19:
-		return single(positions(r), "positions")
+		return positions(r), "positions"
 	}
-	return single(gen.CleanList(r, 2, 8), "clean")
+	return gen.CleanList(r, 2, 8), "clean"
 }
 
 // ------------------------------------------------------------------------------------------------
